@@ -999,6 +999,8 @@ class Interp:
             if isinstance(fx, ast.Attribute):
                 recv0 = self.ev(fx.value, st, fn, depth)
             return [(self.stubs[[t.qual for t in tg if t.qual in self.stubs][0]](args, kws, recv0), st)]
+        if how == "resolved" and tg and len(tg) == 1 and tg[0].qual in self.C.ret:
+            return [(self.bounds_iv(self.C.ret[tg[0].qual]), st)]  # established summary (proved where the callee is analysed)
         if how == "resolved" and tg:
             # constructor call Class(...)  -> [__new__?, __init__]
             ft = self.R.type_of(fx, self.R.scope(fn))
@@ -1018,6 +1020,13 @@ class Interp:
                             m = M.find_method(cc, tg[0].name)
                             if m is not None and not (isinstance(fx.value, ast.Call)):
                                 cands = [m]
+                                if "$exact" not in rv.fields:
+                                    cands = [m] + [o for o in M.overrides(m)]  # declared type: any subclass may be the receiver
+                        cands = [x for x in cands if not self._is_abstract(x)] or cands[:1]
+                        if all(self._is_abstract(x) for x in cands) or len(cands) > 3:
+                            # abstract, or too many possible receivers to follow: sound default for the declared return type
+                            rb0 = self.C.ret.get(cands[0].qual)
+                            return [(self.bounds_iv(rb0) if rb0 is not None else self._default_for_type(self.R.ret_type(cands[0])), st)]
                     elif isinstance(rv, (Iv, Top, NoneV)) or rv is None:
                         t = self.R.type_of(fx.value, self.R.scope(fn))
                         if isinstance(t, str) and M.cls(t, required=False) is not None and tg[0].kind in ("method", "property"):
@@ -1045,15 +1054,34 @@ class Interp:
             if isinstance(t, tuple) and t[0] == "type":
                 return [(Obj(t[1]), st)]
         t = self.R.type_of(c, self.R.scope(fn))
+        if isinstance(t, str) and len(args) == 1 and isinstance(args[0], Iv):
+            ec = self.M.cls(t, required=False)
+            if ec is not None and (self.M.is_subclass(ec, "IntEnum") or self.M.is_subclass(ec, "IntFlag")) and isinstance(fx, ast.Name):
+                return [(args[0], st)]  # IntEnum(value) carries the numeric value
         return [(self._default_for_type(t), st)]
+
+    _abs_memo: dict[int, bool] = {}
+
+    def _is_abstract(self, f: Func) -> bool:
+        k = id(f)
+        if k not in self._abs_memo:
+            b = f.body if not isinstance(f.node, ast.Lambda) else []
+            self._abs_memo[k] = ("abstractmethod" in f.decorators or "abc.abstractmethod" in f.decorators) or (
+                len(b) == 1 and (
+                    (isinstance(b[0], ast.Raise) and b[0].exc is not None and "NotImplementedError" in unparse(b[0].exc))
+                    or (isinstance(b[0], ast.Expr) and isinstance(b[0].value, ast.Constant) and b[0].value.value is Ellipsis)
+                    or isinstance(b[0], ast.Pass)
+                )
+            )
+        return self._abs_memo[k]
 
     def _construct(self, tname: str, tg: list[Func], c: ast.Call, args: list[AV], kws: dict[str, AV], st: State, fn: Func, depth: int) -> list[tuple[AV, State]]:
         init = [f for f in tg if f.name == "__init__"]
         if not init:
-            return [(Obj(tname), st)]
+            return [(Obj(tname, {"$exact": Iv(1, 1)}), st)]
         f = init[0]
         self._check_pre(f, c, args, kws, st, fn, depth)
-        outs = self.inline(f, args, kws, st, fn, depth, Obj(tname), c, [a for a in c.args if not isinstance(a, ast.Starred)], {k.arg: k.value for k in c.keywords if k.arg}, want_self=True)
+        outs = self.inline(f, args, kws, st, fn, depth, Obj(tname, {"$exact": Iv(1, 1)}), c, [a for a in c.args if not isinstance(a, ast.Starred)], {k.arg: k.value for k in c.keywords if k.arg}, want_self=True)
         if outs is None:
             return [(Obj(tname), st)]
         return outs
